@@ -11,6 +11,12 @@ bn := {B: {|self| "B".p; 1}, tag: "bn"}
 be := {B: {|self| "B".p; raise Err.new("inB")}, tag: "be"}
 ci0 := Int.bear.new(0)
 ci3 := Int.bear.new(3)
+IB := Int.bear({B: m{"B".p; self > 1}})
+ib1 := IB.new(1)
+ib2 := IB.new(2)
+sb := Str.bear({B: m{"B".p; true}}).new("")
+ab := Arr.bear({B: m{"B".p; false}}).new([1, 2])
+idf := {|x| x}
 '''
 
 # (expression, truthy?, prints B marker?, Inspect of the value or None when not compared)
@@ -35,6 +41,8 @@ POOL = [
     ("ci0", False, False, "0"), ("ci3", True, False, "3"),
     ("bt", True, True, None), ("bf", False, True, None), ("bn", False, True, None), ("be", False, True, None),
     ("bt.bear", True, True, None), ("bf.bear", False, True, None),
+    # typed descendants whose prototype overrides B: the rule is `.B`, whatever the Go representation of the value
+    ("ib1", False, True, "1"), ("ib2", True, True, "2"), ("sb", True, True, '""'), ("ab", False, True, "[1, 2]"),
 ]
 
 ZERO_FALSE = ["0", "0.0", '""', "[]", "{}", "%{}", "nil", "false"]
@@ -57,6 +65,10 @@ def constructs(c, truthy, bmark, insp):
     yield "raise_if", '{|| raise Err.new("g") if %s; t(2)}()' % c, L(B + ([] if truthy else [2])), ("!Err:g" if truthy else "2")
     yield "defer_if", '{|| defer t(9) if %s; t(2)}()' % c, L(B + [2] + ([9] if truthy else [])), "2"
     yield "yield_if", '<{|| yield t(1) if %s}>.new.next' % c, L(B + ([1] if truthy else [])), ("1" if truthy else "!StopIterErr:iter stopped")
+    # the same operators written directly as a call argument (also under a prefix operator): still evaluated once
+    yield "arg_not_or", "r := idf(!(%s || t(1)))\nr" % c, L(B + ([] if truthy else [1]) + (B if truthy else [])), "false"   # `!` asks the kept operand again
+    yield "arg_and", "r := idf(%s && t(1))\nr" % c, L(B + ([1] if truthy else [])), "1" if truthy else insp
+    yield "arg_not", "r := [7].has?(!(%s))\nr" % c, L(B), "false"
     yield "B_direct", "r := %s.B\nr" % c, None, None
     yield "chain_guard", "[1, 2]@{|x| t(x) if %s}" % c, L(B + ([1] if truthy else []) + B + ([2] if truthy else [])), "[1, 2]" if truthy else "[]"
     yield "nested", "r := ((t(1) if %s else t(2)) if (%s || t(3)) else t(4))\nr" % (c, c), None, None
